@@ -347,9 +347,13 @@ where
                         should_report_waited_for_reboot_duration = false;
 
                         let mut storage = self.storage_ref.lock().await;
-                        storage.remove_or_log(UPDATE_FINISH_TIME).await;
-                        storage.remove_or_log(TARGET_VERSION).await;
-                        storage.commit_or_log().await;
+                        // Only clear the record that was reported: an update installed since
+                        // this state machine started has written a record of its own.
+                        if storage.get_time(UPDATE_FINISH_TIME).await == update_finish_time {
+                            storage.remove_or_log(UPDATE_FINISH_TIME).await;
+                            storage.remove_or_log(TARGET_VERSION).await;
+                            storage.commit_or_log().await;
+                        }
                     }
                     Err(e) => {
                         warn!(
